@@ -5,11 +5,23 @@
    `is_integer_dec r` = finite with exponent >= 0.  `builtin_apply off name args` /
    `builtin_call` (max, min) are the model's semantics of the builtin `name` on converted
    arguments; `arith` / `unary_op` the semantics of the binary / prefix operators (Sem/Eval.v).
+   Text: `num_of_text s` (Num/Dec.v) is the evaluator's string->number coercion (convToNumber, toInt
+   and toFloat on a string): the decimal library's SetString `dec_of_string` restricted to the texts
+   the evaluator's own check `is_decimal_text` accepts.  From Proofs/NumTextFacts.v:
+     is_digits l        every byte of l is an ASCII digit 48..57
+     dval l             the base-10 number spelled by the digit bytes l (a fold, most significant first)
+     sign_text sg neg   sg is empty, "+" (neg = false) or "-" (neg = true)
+     frac_text ft fp    ft is empty (fp = []) or "." followed by the digits fp (possibly none)
+     exp_text et ev     et is empty (ev = 0) or 'e' / 'E', an optional sign and at least one digit (ev: its value)
+     numeral s neg ip fp ev   s = sign ++ ip ++ fraction ++ exponent with ip ++ fp not empty
+     decimal_text s     s is a numeral for some neg ip fp ev
+     spells_infinity s  the text after an optional sign is, ignoring ASCII case, "inf" or "infinity"
+     starts_minus s     the first byte of s is '-'
    NOT COVERED: sqrt, exp, ln, log (the model answers Unk: transcendental_not_modelled);
    abs of more than 34 digits, ceil beyond 10^16 (16-digit rounding, see
    ceil_refuted_beyond_16_digits); toInt and the bit operators outside the int64 range (Unk). *)
 From Coq Require Import String Ascii QArith Qabs.
-From Formula Require Import Sem.Eval Proofs.BuiltinNumFacts.
+From Formula Require Import Sem.Eval Proofs.NumTextFacts Proofs.BuiltinNumFacts.
 Local Open Scope Z_scope.
 
 (* ---- the value function used below, spelled out ---- *)
@@ -156,15 +168,109 @@ Theorem toInt_nonfinite : forall off n,
 Proof. exact BuiltinNumFacts.toInt_nonfinite. Qed.
 
 Theorem toInt_string : forall off s,
-  builtin_apply off (str "toInt") [VStr s] = builtin_apply off (str "toInt") [VNum (dec_of_string s)].
+  builtin_apply off (str "toInt") [VStr s] = builtin_apply off (str "toInt") [VNum (num_of_text s)].
 Proof. exact BuiltinNumFacts.toInt_string. Qed.
 
 (* ---- toFloat of a number is that number, of a string the number it spells, of other text NaN ---- *)
 
 Theorem toFloat_spec : forall off,
   (forall d, builtin_apply off (str "toFloat") [VNum d] = Ok (VNum d)) /\
-  (forall s, builtin_apply off (str "toFloat") [VStr s] = Ok (VNum (dec_of_string s))).
+  (forall s, builtin_apply off (str "toFloat") [VStr s] = Ok (VNum (num_of_text s))).
 Proof. exact BuiltinNumFacts.toFloat_spec. Qed.
+
+(* arithmetic and comparison operators coerce a string operand the same way *)
+Theorem conv_to_number_string : forall s, conv_to_number (VStr s) = num_of_text s.
+Proof. exact BuiltinNumFacts.conv_to_number_string. Qed.
+
+(* ---- which texts are numbers ---- *)
+
+(* the definitions used below, spelled out *)
+Theorem numeral_def : forall s neg ip fp ev,
+  numeral s neg ip fp ev <->
+  exists sg ft et, s = sg ++ ip ++ ft ++ et /\ sign_text sg neg /\ is_digits ip /\ frac_text ft fp /\
+                   ip ++ fp <> [] /\ exp_text et ev.
+Proof. exact NumTextFacts.numeral_def. Qed.
+
+Theorem text_parts_def :
+  (forall sg neg, sign_text sg neg <-> (sg = [] /\ neg = false) \/ (sg = [43] /\ neg = false) \/ (sg = [45] /\ neg = true)) /\
+  (forall ft fp, frac_text ft fp <-> (ft = [] /\ fp = []) \/ (ft = 46 :: fp /\ is_digits fp)) /\
+  (forall et ev, exp_text et ev <->
+     (et = [] /\ ev = 0) \/
+     exists m sg neg ds, et = m :: sg ++ ds /\ (m = 101 \/ m = 69) /\ sign_text sg neg /\ is_digits ds /\ ds <> [] /\
+                         ev = if neg then - dval ds else dval ds) /\
+  (forall l, is_digits l <-> forall b, In b l -> 48 <= b <= 57) /\
+  (forall l, dval l = fold_left (fun a b => a * 10 + (b - 48)) l 0).
+Proof. exact NumTextFacts.text_parts_def. Qed.
+
+(* the evaluator's check accepts exactly the decimal numerals: an optional sign, digits with an
+   optional point and at least one digit, an optional exponent with at least one digit *)
+Theorem is_decimal_text_spec : forall s, is_decimal_text s = true <-> decimal_text s.
+Proof. exact NumTextFacts.is_decimal_text_spec. Qed.
+
+(* a decimal numeral reads as: its sign, all its mantissa digits as the coefficient, the written
+   exponent less the number of fraction digits *)
+Theorem toFloat_numeric : forall s neg ip fp ev,
+  numeral s neg ip fp ev ->
+  num_of_text s = Fin neg (dval (ip ++ fp)) (ev - Z.of_nat (length fp)).
+Proof. exact NumTextFacts.toFloat_numeric. Qed.
+
+(* any other text is NaN, or an infinity when (and only when) it spells one *)
+Theorem toFloat_other_text : forall s,
+  is_decimal_text s = false ->
+  (num_of_text s = NaN \/ exists n, num_of_text s = Inf n) /\
+  (forall n, num_of_text s = Inf n <-> spells_infinity s = true /\ n = starts_minus s).
+Proof. exact NumTextFacts.toFloat_other_text. Qed.
+
+Theorem spells_infinity_def : forall s,
+  spells_infinity s =
+  (bytes_eq (map lower (skip_sign s)) [105; 110; 102] ||
+   bytes_eq (map lower (skip_sign s)) [105; 110; 102; 105; 110; 105; 116; 121]) /\
+  starts_minus s = match s with [] => false | b :: _ => b =? 45 end.
+Proof. exact NumTextFacts.spells_infinity_def. Qed.
+
+(* the three outcomes, each characterised for every text *)
+Theorem toFloat_finite_iff : forall s, is_finite (num_of_text s) = true <-> decimal_text s.
+Proof. exact NumTextFacts.toFloat_finite_iff. Qed.
+
+Theorem toFloat_infinity_iff : forall s n,
+  num_of_text s = Inf n <-> spells_infinity s = true /\ n = starts_minus s.
+Proof. exact NumTextFacts.toFloat_infinity_iff. Qed.
+
+Theorem toFloat_nan_iff : forall s,
+  num_of_text s = NaN <-> is_decimal_text s = false /\ spells_infinity s = false.
+Proof. exact NumTextFacts.toFloat_nan_iff. Qed.
+
+(* texts the decimal library alone reads as numbers ("." "1e" "1e+" "+.e1" as 0, 1, 1, 0) are NaN,
+   as is everything else that is not a numeral *)
+Theorem toFloat_text_rejected :
+  num_of_text (str ".") = NaN /\ num_of_text (str "1e") = NaN /\ num_of_text (str "1e+") = NaN /\
+  num_of_text (str "+.e1") = NaN /\ num_of_text (str "") = NaN /\ num_of_text (str "-") = NaN /\
+  num_of_text (str "e5") = NaN /\ num_of_text (str "0x10") = NaN /\ num_of_text (str "1_000") = NaN /\
+  num_of_text (str " 5") = NaN /\ num_of_text (str "1.2.3") = NaN /\ num_of_text (str "--1") = NaN /\
+  num_of_text (str "NaN") = NaN /\ num_of_text (str "infinit") = NaN.
+Proof. exact NumTextFacts.num_of_text_rejects. Qed.
+
+Theorem set_string_alone_accepts :
+  dec_of_string (str ".") = Fin false 0 0 /\ dec_of_string (str "1e") = Fin false 1 0 /\
+  dec_of_string (str "1e+") = Fin false 1 0 /\ dec_of_string (str "+.e1") = Fin false 0 1.
+Proof. exact NumTextFacts.set_string_accepts. Qed.
+
+Theorem toFloat_text_accepted :
+  num_of_text (str "5.") = Fin false 5 0 /\ num_of_text (str ".5") = Fin false 5 (-1) /\
+  num_of_text (str "+5") = Fin false 5 0 /\ num_of_text (str "-12.50") = Fin true 1250 (-2) /\
+  num_of_text (str "1E+20") = Fin false 1 20 /\ num_of_text (str "007") = Fin false 7 0 /\
+  num_of_text (str "-0") = Fin true 0 0 /\ num_of_text (str "2.5e-3") = Fin false 25 (-4).
+Proof. exact NumTextFacts.num_of_text_accepts. Qed.
+
+Theorem toFloat_text_infinities :
+  num_of_text (str "Inf") = Inf false /\ num_of_text (str "-infinity") = Inf true /\
+  num_of_text (str "+INF") = Inf false /\ num_of_text (str "-InFiNiTy") = Inf true.
+Proof. exact NumTextFacts.num_of_text_infinities. Qed.
+
+Theorem numeral_example :
+  numeral (str "-12.50e+3") true (str "12") (str "50") 3 /\
+  num_of_text (str "-12.50e+3") = Fin true 1250 1.
+Proof. exact NumTextFacts.numeral_example. Qed.
 
 Theorem toFloat_examples :
   builtin_apply 0 (str "toFloat") [VStr (str "12.50")] = Ok (VNum (Fin false 1250 (-2))) /\
@@ -183,6 +289,18 @@ Proof. exact BuiltinNumFacts.digits_of_scan. Qed.
 
 Theorem toString_roundtrip : forall d, dec_wf d = true -> dec_of_string (dec_to_string d) = d.
 Proof. exact BuiltinNumFacts.toString_roundtrip. Qed.
+
+(* the spelling of a finite number is a decimal numeral, so the evaluator's coercion reads it back too *)
+Theorem toString_is_decimal_text : forall n c e, 0 <= c -> is_decimal_text (dec_to_string (Fin n c e)) = true.
+Proof. exact BuiltinNumFacts.toString_is_decimal_text. Qed.
+
+Theorem toString_roundtrip_text : forall d, dec_wf d = true -> num_of_text (dec_to_string d) = d.
+Proof. exact BuiltinNumFacts.toString_roundtrip_text. Qed.
+
+Theorem toString_toInt : forall off d s, dec_wf d = true ->
+  builtin_apply off (str "toString") [VNum d] = Ok (VStr s) ->
+  builtin_apply off (str "toInt") [VStr s] = builtin_apply off (str "toInt") [VNum d].
+Proof. exact BuiltinNumFacts.toString_toInt. Qed.
 
 Theorem toString_toFloat : forall off d s, dec_wf d = true ->
   builtin_apply off (str "toString") [VNum d] = Ok (VStr s) ->
@@ -253,9 +371,27 @@ Print Assumptions toInt_out_of_range.
 Print Assumptions toInt_nonfinite.
 Print Assumptions toInt_string.
 Print Assumptions toFloat_spec.
+Print Assumptions conv_to_number_string.
+Print Assumptions numeral_def.
+Print Assumptions text_parts_def.
+Print Assumptions is_decimal_text_spec.
+Print Assumptions toFloat_numeric.
+Print Assumptions toFloat_other_text.
+Print Assumptions spells_infinity_def.
+Print Assumptions toFloat_finite_iff.
+Print Assumptions toFloat_infinity_iff.
+Print Assumptions toFloat_nan_iff.
+Print Assumptions toFloat_text_rejected.
+Print Assumptions set_string_alone_accepts.
+Print Assumptions toFloat_text_accepted.
+Print Assumptions toFloat_text_infinities.
+Print Assumptions numeral_example.
 Print Assumptions toFloat_examples.
 Print Assumptions digits_of_scan.
 Print Assumptions toString_roundtrip.
+Print Assumptions toString_is_decimal_text.
+Print Assumptions toString_roundtrip_text.
+Print Assumptions toString_toInt.
 Print Assumptions toString_toFloat.
 Print Assumptions finite_spec.
 Print Assumptions and_spec.
